@@ -137,7 +137,9 @@ func runC12(c *evid.Ctx) {
 	}
 	rng := rand.New(rand.NewSource(c.Seed))
 	codec := &wal.BinaryCodec{}
-	// 1. codec round trip
+	// 1. codec round trip (into a fresh destination, and into one that is re-used from
+	// call to call the way raft and the verifier re-use theirs)
+	var reused raft.Log
 	for i := 0; i < nCodec; i++ {
 		l, cls := c12Log(rng, i%50 == 0)
 		var buf bytes.Buffer
@@ -154,6 +156,13 @@ func runC12(c *evid.Ctx) {
 		if d := model.LogDiff(&out, l); d != "" {
 			c.Violation("C12:roundtrip-diff:"+cls, fmt.Sprintf("Decode(Encode(l)) != l for %s: %s", cls, d), map[string]any{"log": model.Brief(l), "class": cls})
 		}
+		prevCls := fmt.Sprintf("data=%d ext=%d", len(reused.Data), len(reused.Extensions))
+		if err := codec.Decode(enc, &reused); err != nil {
+			c.Violation("C12:decode-error", fmt.Sprintf("Decode(Encode(l)) into a re-used destination failed for %s: %v", cls, err), map[string]any{"log": model.Brief(l), "class": cls})
+		} else if d := model.LogDiff(&reused, l); d != "" {
+			c.Violation("C12:roundtrip-diff-reused-destination", fmt.Sprintf("Decode(Encode(l)) into a destination that held a previous log (%s) != l for %s: %s", prevCls, cls, d), map[string]any{"log": model.Brief(l), "class": cls, "previous": prevCls})
+		}
+		c.Count("roundtrips_into_reused_destination", 1)
 		// the decoded log must not reference the input buffer
 		for j := range enc {
 			enc[j] = 0xEE
@@ -193,8 +202,14 @@ func runC12(c *evid.Ctx) {
 			drv.CloseWAL(w)
 			continue
 		}
+		var reusedOut raft.Log
 		check := func(when string) {
 			for _, l := range logs {
+				if err := w.GetLog(l.Index, &reusedOut); err != nil {
+					c.Violation("C12:getlog-error:"+when, fmt.Sprintf("GetLog(%d) %s: %v", l.Index, when, err), map[string]any{"log": model.Brief(l)})
+				} else if d := model.LogDiff(&reusedOut, l); d != "" {
+					c.Violation("C12:wal-roundtrip-diff-reused-destination:"+when, fmt.Sprintf("GetLog(%d) %s into a destination that held the previous result differs: %s", l.Index, when, d), map[string]any{"log": model.Brief(l)})
+				}
 				var out raft.Log
 				if err := w.GetLog(l.Index, &out); err != nil {
 					c.Violation("C12:getlog-error:"+when, fmt.Sprintf("GetLog(%d) %s: %v", l.Index, when, err), map[string]any{"log": model.Brief(l)})
